@@ -1365,6 +1365,8 @@ def compile_pattern(compiler, pattern):
     elif isinstance(value, Symbol):
         return compiler.scope.assign(asty.MatchAs(value, name=mangle(value)))
     elif isinstance(value, Expression) and value[0] == Symbol("|"):
+        if len(value[1]) < 2:
+            raise compiler._syntax_error(value, "`|` needs at least two patterns")
         return asty.MatchOr(
             value,
             patterns=[compile_pattern(compiler, v) for v in value[1]],
